@@ -246,7 +246,7 @@ def to_model(data_file: typing.IO, _config = None, progress_callback=lambda _: N
 
       if line is None or _EMPTY_RE.fullmatch(line):
         subtitle_text = subtitle_text.strip('\r\n')\
-          .replace(r"\n\r", "\n")\
+          .replace("\n\r", "\n")\
           .replace(r"{bold}", r"<bold>")\
           .replace(r"{/bold}", r"</bold>")\
           .replace(r"{italic}", r"<italic>")\
